@@ -58,6 +58,14 @@ Inductive case :=
 | CSeqStable (via : nat) (hs : list string) (known : bool) (c0 : Z) (steps : list (report * res)) (c1 : Z)
 (* the same with concurrent callers: per caller the report it was handed and the result *)
 | CConcStable (hs : list string) (per : list (list (report * res)))
+(* a middleware built by the exported constructor `name` (proxy/balancing.go) with GOMAXPROCS =
+   procs over a subscriber reporting hs (isfixed: a sd.FixedSubscriber value): what the next
+   proxy saw over the calls.  Which balancer that constructor builds is looked up in the
+   model's table, and the oracle of that balancer is applied *)
+| CMwNamed (name : string) (procs : Z) (isfixed : bool) (hs : list string) (obs : list res)
+(* sd constructors: which 0 = NewBalancer, 1 = NewRoundRobinLB, 2 = NewRandomLB; observed kind
+   0 = single-host, 1 = round robin (start: its initial counter), 2 = random *)
+| CCtor (which : nat) (procs : Z) (isfixed : bool) (hs : list string) (kind : nat) (start : Z)
 (* round robin, several concurrent callers on one fixed list: results per caller *)
 | CConc (known : bool) (hs : list string) (c0 : Z) (per : list (list res)) (c1 : Z)
 (* random balancer with an injected (seeded fastrand.RNG) generator, scripted reports:
@@ -83,6 +91,10 @@ Definition check_seq_fixed (hs : list string) (known : bool) (c0 : Z) (obs : lis
    all_ok_fixed hs obs &&
    (negb (nodup_str hs && nonempty hs && no_wrap_b c0 M (List.length hs)) || rr_seq_b hs (oks obs))).
 
+Definition check_share (hs : list string) (obs : list res) : bool * bool :=
+  (forallb (fun o => kind_eqb (rnd_step 0 (fixed hs)) o) obs,
+   all_ok_fixed hs obs && (negb (nodup_str hs && nonempty hs) || share_b hs (oks obs))).
+
 Definition check_case (c : case) : bool * bool :=
   match c with
   | CSeqFixed via hs known c0 obs c1 => check_seq_fixed hs known c0 obs c1
@@ -92,9 +104,34 @@ Definition check_case (c : case) : bool * bool :=
       let '(a, b) := check_seq_fixed hs known c0 obs c1 in
       (a && list_eqb str_eqb (fst (random_fixed [] hs)) after && same_mset_str hs sub, b)
   | CSeqDyn via known c0 steps c1 =>
+      (* via 0 / 1: one caller on a round robin balancer / middleware: the windows between
+         changes of the list are fair.  Other values (random, generic, one caller of many
+         concurrent ones: via >= 10): membership and error rules only *)
       let '(c1m, om) := rr_run c0 (map fst steps) in
       (list_eqb kind_eqb om (map snd steps),
-       forallb (fun s => call_ok_b (fst s) (snd s)) steps)
+       forallb (fun s => call_ok_b (fst s) (snd s)) steps &&
+       (negb ((Nat.eqb via 0 || Nat.eqb via 1) &&
+              (c0 + Z.of_nat (List.length steps) + two32 <=? two64))
+        || blocks_b None [] steps))
+  | CMwNamed name procs isfixed hs obs =>
+      match lookup name mw_constructors with
+      | None => (false, false)
+      | Some k =>
+          match build k procs (if isfixed then SFixed hs else SOther) 0 with
+          | BRandom => check_share hs obs
+          | _ => check_seq_fixed hs false 0 obs 0
+          end
+      end
+  | CCtor which procs isfixed hs kind start =>
+      let k := match which with O => CGeneric | S O => CRoundRobin | _ => CRandom end in
+      (match build k procs (if isfixed then SFixed hs else SOther) 0 with
+       | BNop _ => Nat.eqb kind 0
+       | BRR _ => Nat.eqb kind 1 &&
+                  (if isfixed && (1 <? Z.of_nat (List.length hs))
+                   then (0 <=? start) && (start <? Z.of_nat (List.length hs))
+                   else start =? 0)
+       | BRandom => Nat.eqb kind 2
+       end, true)
   | CSeqStable via hs known c0 steps c1 =>
       let rs := map fst steps in
       let obs := map snd steps in
@@ -124,9 +161,7 @@ Definition check_case (c : case) : bool * bool :=
                   kind_eqb (rnd_step x r) o &&
                   (arg =? match hosts_step r with inl hs => Z.of_nat (List.length hs) | inr _ => -1 end)) steps,
        forallb (fun s => let '(r, arg, x, o) := s in call_ok_b r o) steps)
-  | CShare wild hs obs =>
-      (forallb (fun o => kind_eqb (rnd_step 0 (fixed hs)) o) obs,
-       all_ok_fixed hs obs && (negb (nodup_str hs && nonempty hs) || share_b hs (oks obs)))
+  | CShare wild hs obs => check_share hs obs
   | CU32 l =>
       (forallb (fun t => let '(x, n, r) := t in uint32n x n =? r) l,
        forallb (fun t => let '(x, n, r) := t in (0 <=? r) && (r <? n)) l)
